@@ -36,6 +36,27 @@
 namespace Avoid {
 
 
+bool CmpJunctionRefPtrById::operator()(const JunctionRef *lhs,
+        const JunctionRef *rhs) const
+{
+    if (lhs == rhs)
+    {
+        return false;
+    }
+    if (!lhs || !rhs)
+    {
+        // Null pointers (used for lookups only) order first.
+        return (lhs == nullptr);
+    }
+    if (lhs->id() != rhs->id())
+    {
+        return lhs->id() < rhs->id();
+    }
+    // IDs are unique within a router, so this is only a last resort.
+    return lhs < rhs;
+}
+
+
 // Constructs a new hyperedge tree node.
 //
 HyperedgeTreeNode::HyperedgeTreeNode()
